@@ -104,6 +104,9 @@ func c17Col(rows [][]string, i int) []string {
 }
 
 func c17TwinsRun(c *core.Ctx) {
+	if c17SkipFamily("twin-calls") {
+		return
+	}
 	dir := core.Scratch("c17twins")
 	var idx int64
 	for _, tb := range c17TwinTables {
